@@ -482,7 +482,8 @@ class Interp:
         ints = [i for i, f in enumerate(fields) if f['ty'].get('k') == 'prim' and f['ty']['name'] == 'usize']
         refs = [i for i, f in enumerate(fields) if f['ty'].get('k') == 'ref' and f['ty']['mut']
                 and f['ty']['to'].get('k') == 'adt' and f['ty']['to']['path'] in self.container_paths]
-        if len(ints) == 1 and len(refs) == 1 and len(fields) == 2:
+        # (other fields -- a copy of the probe key, PhantomData -- do not take part in the invariant)
+        if len(ints) == 1 and len(refs) == 1:
             return ints[0], refs[0]
         return None
 
